@@ -374,16 +374,18 @@ class Builtins(object):
             fresh strings constrained by s = g1 g2 ... (some decomposition; exact when the decomposition is unique) """
         from . import lexre
         ctx = it.ctx
-        if name != 'match':
+        if name not in ('match', 'search'):
             raise OutOfReach('regex method %s' % name)
         s = args[0]
         if isinstance(s, str):
             import re
-            m = re.compile(rx.pattern, rx.flags).match(s)
+            m = getattr(re.compile(rx.pattern, rx.flags), name)(s)
             if m is None:
                 return None
             groups = tuple(m.groups())
-            return Obj(NamedTupleClass('Match', []), {'groups': Builtin('groups', lambda it2, a, k: groups)})
+            gd = m.groupdict()
+            return Obj(NamedTupleClass('Match', []), {'groups': Builtin('groups', lambda it2, a, k: groups),
+                                                     'group': Builtin('group', lambda it2, a, k: gd[a[0]] if isinstance(a[0], str) else m.group(a[0]))})
         ss = as_sym(s)
         kd = ctx.narrow(ss)
         if kd != STR:
@@ -432,6 +434,46 @@ class Builtins(object):
         if len(args) == 1 and args[0] is T_LIST:
             return DDict()
         raise OutOfReach('defaultdict of %r' % (args,))
+
+    def _stat(self, it, name, args, minlen=1):
+        """ statistics.<name>(data): an uninterpreted function of the data sequence; StatisticsError on too few data """
+        seq = args[0]
+        if isinstance(seq, (list, tuple)):
+            try:
+                seq = mk_list(ACC[LIST][0](to_val(seq)))
+            except Unliftable as u:
+                raise OutOfReach(str(u))
+        if not isinstance(seq, Sym) or it.ctx.narrow(seq) != LIST:
+            raise OutOfReach('statistics.%s of %r' % (name, seq))
+        it.ctx.flags.add('ext:statistics.' + name)
+        s = seq.pay(LIST)
+        if it.ctx.branch(z3.Length(s) < minlen):
+            raise PyRaise('StatisticsError', ExcInst('StatisticsError'))
+        f = z3.Function('stat_' + name, SeqVal, Val)
+        r = Sym(f(s), (INT, FLOAT))
+        it.ctx.axiom(z3.Or(REC[INT](f(s)), REC[FLOAT](f(s))))
+        return r
+
+    def x_statistics_mean(self, it, args, kwargs):
+        return self._stat(it, 'mean', args)
+
+    def x_statistics_median(self, it, args, kwargs):
+        return self._stat(it, 'median', args)
+
+    def x_statistics_mode(self, it, args, kwargs):
+        return self._stat(it, 'mode', args)
+
+    def x_statistics_variance(self, it, args, kwargs):
+        return self._stat(it, 'variance', args, 2)
+
+    def x_statistics_pvariance(self, it, args, kwargs):
+        return self._stat(it, 'pvariance', args)
+
+    def x_statistics_stdev(self, it, args, kwargs):
+        return self._stat(it, 'stdev', args, 2)
+
+    def x_statistics_pstdev(self, it, args, kwargs):
+        return self._stat(it, 'pstdev', args)
 
     def x_traceback_print_exc(self, it, args, kwargs):
         it.ctx.log.append(('stderr', 'traceback.print_exc'))
